@@ -438,4 +438,109 @@ Section Deep.
     destruct (decide (q ++ [n] = p)) as [E|E]; [destruct Hsome; discriminate|].
     pose proof (Htree q n Hu Hsome) as Hq. destruct (decide (q = p)) as [->|_]; [congruence|exact Hq].
   Qed.
+  (** ** remove_dir on a directory the overlay shows as EMPTY - wherever it and its (deleted) entries live *)
+  Lemma remove_dir0 (s0 s1 : mstate) hs q g :
+    s0 !! q = Some g -> f_type g = Dir -> (forall n, s0 !! (q ++ [n]) = None) ->
+    run bhandler (vp_remove_dir v0 q) (S2 s0 s1 hs) = (S2 (delete q s0) s1 hs, Ok tt).
+  Proof.
+    intros Hq Hg Hk. cbn. unfold mem_fs_call. rewrite ms_remove_dir. cbn [msec_sem]. rewrite Hq, Hg.
+    rewrite (proj2 (mem_children_nil s0 q) Hk). reflexivity.
+  Qed.
+
+  Theorem remove_dir_deep (s0 s1 : mstate) hs (p : path) :
+    wf s0 -> p <> [] -> user_path p -> no_collision p ->
+    (is_Some (s0 !! p) -> s0 !! marker p = None) ->
+    view s0 s1 p = Some NDir ->
+    (forall n, view s0 s1 (p ++ [n]) = None) ->                       (* it shows no entries *)
+    (s0 !! (whiteout_name :: p) = None \/ is_dir s0 (whiteout_name :: p)) ->
+    Forall (not_file s0) (prefixes (removelast (marker p))) ->
+    exists s0',
+      run bhandler (ovl_impl top lower (CRemoveDir p)) (S2 s0 s1 hs) = (S2 s0' s1 (hs ++ [HClosed]), Ok tt) /\ wf s0' /\
+      forall q, user_path q -> view s0' s1 q = if decide (q = p) then None else view s0 s1 q.
+  Proof.
+    intros Hwf Hp Hup Hnc Hinv Hv Hempty Hwdir Hfree.
+    assert (Hmne : marker p <> p) by (apply user_marker_ne; exact Hup).
+    assert (Hmnil : marker p <> []) by (unfold whiteout_path; destruct (reverse p); discriminate).
+    assert (Hkids0 : forall n, s0 !! (p ++ [n]) = None).
+    { intros n. specialize (Hempty n). apply view_none_cases in Hempty as [H _]. exact H. }
+    assert (Hkids1 : forall n, is_Some (s1 !! (p ++ [n])) -> is_Some (s0 !! marker (p ++ [n]))).
+    { intros n Hn. specialize (Hempty n). apply view_none_cases in Hempty as [_ [H|[_ H]]]; [exact H|].
+      rewrite H in Hn. destruct Hn; discriminate. }
+    assert (Hframe : forall s0', s0' !! p = None -> is_Some (s0' !! marker p) ->
+               (forall q, q <> p -> q ∉ prefixes (marker p) -> s0' !! q = s0 !! q) ->
+               forall q, user_path q -> view s0' s1 q = if decide (q = p) then None else view s0 s1 q).
+    { intros s0' Hgone Hmark Hsame q [Hqh Hqn]. unfold view. destruct (decide (q = p)) as [->|Hne].
+      - rewrite Hgone. rewrite bool_decide_eq_true_2 by exact Hmark. reflexivity.
+      - assert (Hq1 : q ∉ prefixes (marker p)).
+        { intros Hin. apply prefixes_head in Hin. rewrite marker_head in Hin. congruence. }
+        assert (Hq2 : marker q ∉ prefixes (marker p)).
+        { intros Hin. apply prefixes_cases in Hin as [Hin|Hin]; [exact (Hnc q Hin)| |exact Hmnil].
+          apply Hne. apply (whiteout_path_inj top q p); [exact Hqn|apply Hup|exact Hin]. }
+        assert (Hq3 : marker q <> p) by (intros E; destruct Hup as [Hh _]; rewrite <- E, marker_head in Hh; congruence).
+        rewrite (Hsame q Hne Hq1), (Hsame (marker q) Hq3 Hq2). reflexivity. }
+    apply view_dir_cases in Hv as [(g & Hg & Hgt)|(Hn & Hwo & Hlow)].
+    - (* the write layer has the directory *)
+      assert (Hwo : s0 !! marker p = None) by (apply Hinv; eauto).
+      cbn [ovl_impl]. unfold bind_res at 1. rewrite run_bind, (read_path_rule hs lg ft s0 s1 p Hp).
+      rewrite bool_decide_eq_true_2 by eauto.
+      destruct (read_dir_rule hs lg ft s0 s1 p (proj2 Hwf) Hp Hwo (or_introl (ex_intro _ g (conj Hg Hgt))) Hwdir) as (l & Hrun & Hl).
+      unfold bind_res at 1. rewrite run_bind, Hrun.
+      assert (l = []) as ->.
+      { apply elem_of_nil_inv. intros c Hc. apply Hl in Hc as [[[_ [x Hx]]|[_ Hc]] Hm].
+        - rewrite Hkids0 in Hx. discriminate.
+        - apply Hkids1 in Hc as [y Hy]. rewrite Hm in Hy. discriminate. }
+      unfold write_path. cbn [fst snd app]. unfold bind_res at 1. rewrite run_bind, exists0, Hg.
+      rewrite bool_decide_eq_true_2 by eauto.
+      unfold bind_res at 1. rewrite run_bind, (remove_dir0 s0 s1 hs p g Hg Hgt Hkids0).
+      assert (Hwf' : wf (delete p s0)).
+      { destruct Hwf as [Hr Hpc]. split.
+        - apply root_dir_delete; [exact Hp|exact Hr].
+        - apply pc_delete; auto. }
+      assert (Hwo' : delete p s0 !! marker p = None) by (rewrite lookup_delete_ne by congruence; exact Hwo).
+      assert (Hfree' : Forall (not_file (delete p s0)) (prefixes (removelast (marker p)))).
+      { eapply Forall_impl; [exact Hfree|]. intros q Hq f Hf. apply lookup_delete_Some in Hf as [_ Hf]. eauto. }
+      destruct (set_whiteout0 lg ft (delete p s0) s1 hs p Hwf' Hwo' Hfree') as (s0' & Hrun' & Hm & Hsame & Hwf'').
+      rewrite Hrun'. exists s0'. split; [reflexivity|]. split; [exact Hwf''|]. apply Hframe.
+      + rewrite Hsame; [apply lookup_delete|]. intros Hin. apply prefixes_head in Hin. destruct Hup as [Hh _].
+        rewrite marker_head in Hin. congruence.
+      + exact Hm.
+      + intros q Hqp Hq. rewrite (Hsame q Hq). apply lookup_delete_ne. congruence.
+    - (* only the lower layer has it *)
+      destruct (remove_lower_dir_sets_marker lg ft s0 s1 hs p Hwf Hp Hwo Hn Hlow Hwdir Hkids1 Hfree) as (s0' & Hrun & Hm & Hsame & Hwf').
+      exists s0'. split; [exact Hrun|]. split; [exact Hwf'|]. apply Hframe; auto.
+      rewrite Hsame; [exact Hn|]. intros Hin. apply prefixes_head in Hin. destruct Hup as [Hh _]. rewrite marker_head in Hin. congruence.
+  Qed.
+
+  Theorem remove_dir_keeps_tree (s0 s1 : mstate) hs (p : path) :
+    wf s0 -> p <> [] -> user_path p -> no_collision p ->
+    (is_Some (s0 !! p) -> s0 !! marker p = None) ->
+    view s0 s1 p = Some NDir -> (forall n, view s0 s1 (p ++ [n]) = None) ->
+    (s0 !! (whiteout_name :: p) = None \/ is_dir s0 (whiteout_name :: p)) ->
+    Forall (not_file s0) (prefixes (removelast (marker p))) -> view_tree s0 s1 ->
+    exists s0', run bhandler (ovl_impl top lower (CRemoveDir p)) (S2 s0 s1 hs) = (S2 s0' s1 (hs ++ [HClosed]), Ok tt) /\
+                wf s0' /\ view_tree s0' s1.
+  Proof.
+    intros Hwf Hp Hup Hnc Hinv Hv Hempty Hwdir Hfree Htree.
+    destruct (remove_dir_deep s0 s1 hs p Hwf Hp Hup Hnc Hinv Hv Hempty Hwdir Hfree) as (s0' & Hrun & Hwf' & Hview).
+    exists s0'. split; [exact Hrun|]. split; [exact Hwf'|].
+    intros q n Hu Hsome. pose proof (user_path_parent q n Hu) as Huq.
+    rewrite (Hview (q ++ [n]) Hu) in Hsome. rewrite (Hview q Huq).
+    destruct (decide (q ++ [n] = p)) as [E|E]; [destruct Hsome; discriminate|].
+    pose proof (Htree q n Hu Hsome) as Hq. destruct (decide (q = p)) as [->|_]; [|exact Hq].
+    rewrite Hempty in Hsome. destruct Hsome; discriminate.
+  Qed.
+  (** ** removing what the overlay does not show: not-found, nothing changes in either layer *)
+  Theorem remove_absent (s0 s1 : mstate) hs (p : path) :
+    p <> [] -> view s0 s1 p = None ->
+    run bhandler (ovl_impl top lower (CRemoveFile p)) (S2 s0 s1 hs) = (S2 s0 s1 hs, fail ENotFound) /\
+    run bhandler (ovl_impl top lower (CRemoveDir p)) (S2 s0 s1 hs) = (S2 s0 s1 hs, fail ENotFound).
+  Proof.
+    intros Hp Hv.
+    assert (Hrp : run bhandler (read_path top lower p) (S2 s0 s1 hs) = (S2 s0 s1 hs, fail ENotFound)).
+    { rewrite (read_path_rule hs lg ft s0 s1 p Hp). apply view_none_cases in Hv as [H0 [Hm|[Hm H1]]].
+      - rewrite H0. rewrite (bool_decide_eq_false_2 (is_Some None)) by (intros [? ?]; discriminate).
+        rewrite bool_decide_eq_true_2 by exact Hm. reflexivity.
+      - rewrite H0, Hm, H1. rewrite (bool_decide_eq_false_2 (is_Some None)) by (intros [? ?]; discriminate). reflexivity. }
+    split; cbn [ovl_impl]; unfold bind_res at 1; rewrite run_bind, Hrp; reflexivity.
+  Qed.
 End Deep.
